@@ -360,7 +360,7 @@ func runJob(tier string, idx int, jb job) ([]prog.Result, []string, error) {
 		Env:        []string{"PROGRUN_MODE=c14"},
 		BuildP:     3,
 		Timeout:    15 * time.Minute,
-		GoCache:    os.Getenv("VERIF_SCRATCH_GOCACHE"),
+		GoCache:    scratchCache(),
 	}
 	res, err := prog.RunBatch(cfg, progs)
 	return res, descs, err
@@ -390,6 +390,9 @@ func verdicts(r prog.Result) [][2]string {
 }
 
 func run(c *fw.Ctx) {
+	if c.Thorough() {
+		cacheShard = c.Shard // worker-private scratch cache, trimmed between batches
+	}
 	js := jobs(c.Thorough())
 	total := 0
 	for _, j := range js {
@@ -404,6 +407,9 @@ func run(c *fw.Ctx) {
 		if c.Expired() {
 			c.Capped(fmt.Sprintf("time budget hit before job %d of %d", idx, len(js)))
 			break
+		}
+		if c.Thorough() {
+			prog.TrimCache(scratchCache(), 3<<30)
 		}
 		res, descs, err := runJob(c.Tier, idx, jb)
 		if err != nil {
@@ -470,6 +476,19 @@ func replay(c *fw.Ctx, kind string, data json.RawMessage) string {
 		return ""
 	}
 	return "unknown base " + dc.Base
+}
+
+// scratchCache is the build cache for the generated programs: the persistent
+// shared one in the quick tier (set by vrun), a worker-private directory under
+// the run's scratch cache in the thorough tier (trimmed between batches).
+var cacheShard = -1
+
+func scratchCache() string {
+	base := os.Getenv("VERIF_SCRATCH_GOCACHE")
+	if base == "" || cacheShard < 0 {
+		return base
+	}
+	return filepath.Join(base, fmt.Sprintf("w%d", cacheShard))
 }
 
 // Main runs the check.
